@@ -245,7 +245,8 @@ class HierDictDocument(DictDocument):
                     raise ValidationError([key, inst])
 
                 if issubclass(cls, (ByteArray, Uuid)):
-                    retval = self.from_serstr(cls, inst, self.binary_encoding)
+                    retval = self._from_serstr_checked(cls, inst,
+                                                           self.binary_encoding)
 
                 elif issubclass(cls, Unicode):
                     if isinstance(inst, bytearray):
@@ -273,14 +274,32 @@ class HierDictDocument(DictDocument):
                         retval = inst
 
                 else:
-                    retval = self.from_serstr(cls, inst)
+                    retval = self._from_serstr_checked(cls, inst)
 
         # validate native type
         if validator is self.SOFT_VALIDATION:
-            if not cls.validate_native(cls, retval):
+            try:
+                valid = cls.validate_native(cls, retval)
+            except (TypeError, ArithmeticError):
+                # a document node that can't even be compared with the bounds
+                # of its type (e.g. a list or NaN where a number is expected)
+                valid = False
+
+            if not valid:
                 raise ValidationError([key, retval])
 
         return retval
+
+    def _from_serstr_checked(self, cls, inst, *args):
+        """The parsers of primitives expect text (or whatever the serializer
+        uses to carry the type natively). The incoming document can have any
+        kind of node in that place, which makes them raise TypeError. That's a
+        malformed request, not an internal error."""
+
+        try:
+            return self.from_serstr(cls, inst, *args)
+        except TypeError as e:
+            raise ValidationError(inst, "%%r: %s" % str(e).replace("%", "%%"))
 
     def _doc_to_object(self, ctx, cls, doc, validator=None):
         if doc is None:
